@@ -42,6 +42,13 @@ def menu():
         for second in ('set "a" row 5', 'set "a" column 7', 'set "s" row 4 column 4', 'set "nobody" row 9', 'set "a" zone 7',
                        'set "m" zone 6', 'set "a" begin stage row 5 column 6 end'):
             out.append('hue 120 saturation 50 brightness 40 kelvin 2700 print 1 %s %s print 2 on "%s" print 3' % (first, second, HEALTHY))
+    # a `get` from a silent light, then a colour command to a healthy one, in every unit mode: the registers equal
+    # what the light would have reported (all zero), so the fault-free run is the reference for the healthy light
+    for mode, mod in (('logical', 'brightness 0'), ('raw', 'hue 0'), ('rgb', 'red 0'), ('rgb', 'blue 0 green 0')):
+        out.append('hue 0 saturation 0 brightness 0 kelvin 0 duration 1 units %s print 1 get "a" %s print 2 set "%s" print 3'
+                   % (mode, mod, HEALTHY))
+        out.append('hue 0 saturation 0 brightness 0 kelvin 0 units %s print 1 get "a" print 2 set "s" zone 1 and "%s" print 3'
+                   % (mode, HEALTHY))
     # a loop keeps going over a silent light
     out.append('repeat all as l begin on l end print 2 on "h" print 3')
     out.append('define f with l begin get l set l end f "a" print 2 f "h" print 3')
